@@ -376,3 +376,76 @@ Proof.
   - rewrite <- !app_assoc. cbn [app]. rewrite <- !app_assoc. reflexivity.
   - rewrite ET. rewrite <- !app_assoc. cbn [app]. rewrite <- ?app_assoc. reflexivity.
 Qed.
+
+(** * A closing math delimiter [\)] / [\]] inserted in a formula of the same
+    kind: it closes the formula early; the rest of the formula body is read in
+    the enclosing body (outside math mode: it has to be well formed there too)
+    and the formula's own closing delimiter is left over, where it is rejected. *)
+Lemma hd_error_pre (x y z : str) : x <> [] -> hd_error ((x ++ y) ++ z) = hd_error x.
+Proof. destruct x; [congruence|reflexivity]. Qed.
+
+Theorem fault_close_math_same cx path b ws k tr a l1 l2 dtr :
+  k <> MDollar ->
+  let f := FMath b ws k tr a in
+  let hs := lp_state cx (walker_state cx) (lefts path) in
+  ok_doc cx (zdoc (path ++ [f]) l1 l2 dtr) = true ->
+  closes_hole (lefts path) (SMClose k) = false ->
+  ok_items cx hs l2 (hd_error (tr ++ m_close k)) = true ->
+  let L := b ++ Math ws k l1 [] :: l2 in
+  let q := length (lp_text (lefts path)) + length (unparse_items L) + length tr in
+  exists e,
+    parse_top (zleft (path ++ [f]) l1 ++ m_close k ++ zright (path ++ [f]) l2 dtr) false cx (walker_state cx)
+    = PErr e (q + 2)
+    /\ pe_pos e = Some q /\ pe_what e = 4.
+Proof.
+  intros KD f hs OKD CH OK2 L q. unfold ok_doc, ok_doc_in, zdoc in OKD. cbn [d_items d_trail] in OKD.
+  apply andb_true_iff in OKD. destruct OKD as [OKD _]. rewrite plug_app in OKD.
+  destruct (ok_plug cx path _ _ _ OKD) as (OKP & DLb & fh' & OKH). fold hs in OKH.
+  cbn [plug plug_frame f] in OKH, DLb.
+  rewrite ok_items_app in OKH. apply andb_true_iff in OKH. destruct OKH as [HB HX].
+  rewrite ok_items_cons in HX. apply andb_true_iff in HX. destruct HX as [HX _].
+  rewrite ok_item_math in HX. apply andb_true_iff in HX. destruct HX as [HX _].
+  apply andb_true_iff in HX. destruct HX as [HX OKB].
+  apply andb_true_iff in HX. destruct HX as [HX Wt].
+  apply andb_true_iff in HX. destruct HX as [M W].
+  rewrite ok_items_app in OKB. apply andb_true_iff in OKB. destruct OKB as [OK1 _].
+  assert (OKL : ok_items cx hs L (hd_error (tr ++ stray_text (SMClose k))) = true).
+  { unfold L. rewrite ok_items_app. apply andb_true_iff. split.
+    - rewrite <- HB. apply (f_equal (ok_items cx hs b)). rewrite !unparse_items_cons. cbn [unparse_item].
+      destruct ws; cbn [app hd_error]; [|reflexivity]. destruct k; reflexivity.
+    - rewrite ok_items_cons. apply andb_true_iff. split; [|exact OK2].
+      rewrite ok_item_math, M, W. cbn [andb].
+      replace (match k with MDollar => _ | _ => true end) with true by (destruct k; [congruence|reflexivity|reflexivity]).
+      rewrite andb_true_r. eapply ok_items_follow; [|exact OK1]. destruct k; [congruence|exact inertf_92|exact inertf_92]. }
+  assert (NEp : unparse_items b ++ ws ++ m_open k <> []).
+  { destruct (unparse_items b); [|discriminate]. destruct ws; [|discriminate]. destruct k; discriminate. }
+  assert (ND : last_dollar path = true -> not_dollar (hd_error (unparse_items L ++ tr ++ stray_text (SMClose k)))).
+  { intros LD. specialize (DLb LD).
+    assert (E1 : unparse_items (b ++ Math ws k (l1 ++ l2) tr :: a)
+                 = ((unparse_items b ++ ws ++ m_open k) ++ (unparse_items (l1 ++ l2) ++ tr ++ m_close k)) ++ unparse_items a).
+    { rewrite unparse_items_app, unparse_items_cons. cbn [unparse_item]. fold (unparse_items (l1 ++ l2)).
+      rewrite <- !app_assoc. reflexivity. }
+    assert (E2 : unparse_items L ++ tr ++ stray_text (SMClose k)
+                 = ((unparse_items b ++ ws ++ m_open k) ++ (unparse_items l1 ++ m_close k)) ++ unparse_items l2
+                   ++ tr ++ stray_text (SMClose k)).
+    { unfold L. rewrite unparse_items_app, unparse_items_cons. cbn [unparse_item]. fold (unparse_items l1).
+      rewrite <- !app_assoc. cbn [app]. reflexivity. }
+    rewrite E2, (hd_error_pre _ _ _ NEp). rewrite E1, (hd_error_pre _ _ _ NEp) in DLb. apply DLb.
+    intros E. apply app_eq_nil in E. destruct E as [E _]. apply app_eq_nil in E. destruct E as [E _]. exact (NEp E). }
+  destruct (fault_closing cx (lefts path) L tr (SMClose k) (unparse_items a ++ rp_text path ++ dtr)
+              (OKP _ ND) OKL Wt KD CH) as (e & H & P & Wh).
+  cbn zeta in H. fold hs in H.
+  assert (LC : length (stray_text (SMClose k)) = 2) by (destruct k; [congruence|reflexivity|reflexivity]).
+  rewrite LC in H.
+  exists e. split; [|split; [exact P | exact Wh]].
+  assert (TXT : zleft (path ++ [f]) l1 ++ m_close k ++ zright (path ++ [f]) l2 dtr
+                = lp_text (lefts path) ++ unparse_items L ++ tr ++ stray_text (SMClose k)
+                  ++ unparse_items a ++ rp_text path ++ dtr).
+  { unfold zleft, zright, L.
+    rewrite lefts_app, lp_text_app, rp_text_app.
+    cbn [lefts map left_of lp_text flat_map rp_text right_text f app stray_text].
+    unfold lf_text. cbn [lf_before lf_ws lf_open].
+    rewrite unparse_items_app, unparse_items_cons. cbn [unparse_item]. fold (unparse_items l1).
+    rewrite ?app_nil_r, <- !app_assoc. cbn [app]. reflexivity. }
+  rewrite TXT. exact H.
+Qed.
